@@ -17,6 +17,7 @@ import numpy
 from .. import core
 from .. import c13_terms as T
 from .. import c13_judge as J
+from .. import c13_ndarg as ND
 
 LEVEL = 'exploration'
 RULE = ('bodies: all terms over leaves {u,v,w:(2,), p:(), const (2,)} with ops {neg,sq,sin,add,mul,sum,dot}: depth<=1 (56 bodies, under two naming '
@@ -34,7 +35,10 @@ RULE = ('bodies: all terms over leaves {u,v,w:(2,), p:(), const (2,)} with ops {
         'on 3 valuations, derivative / linearize / replace of the factored form, factor of replaced bodies, rejection of non polynomials; all '
         'broadcast-compatible wrong shapes and int/float/bool dtype mismatches as replacement values (constants, Argument objects, expressions), '
         'as Argument-object keys, as directions, as derivative targets, and as values supplied at evaluation time (numpy and plain python) for plain, '
-        'replaced, linearized, differentiated and factored bodies. non-trivial = distinct (body, manipulation) whose reference value depends on at least '
+        'replaced, linearized, differentiated and factored bodies; family ndarg: argument SHAPES - every shape with 1..3 axes of lengths {1,2,3} plus '
+        '5 shapes with 3-4 axes of different lengths (thorough: all 4-axis shapes over {1,2,3} and three longer ones) x 3 polynomial bodies x '
+        '{derivative by name / object / to the scalar, second derivative, linearize, replace by an expression, swap} x {plain, factored} against '
+        'closed forms. non-trivial = distinct (body, manipulation) whose reference value depends on at least '
         'one argument, or a distinct ill-typed request (it reaches a validation rule)')
 ASSUMPTIONS = ['numpy evaluation with environment passing is the reference semantics of replace (simultaneous substitution, values taken in the outer environment)',
                'complex-step differentiation (Richardson differences for second order, tolerance 1e-6) is the reference directional derivative',
@@ -226,6 +230,7 @@ def shards(tier, seed):
     add('typing', 'alg01', 'plain', 2)
     add('evalvalue', 'alg01', 'plain', 3)
     add('intarg', 'intarg', 'plain', 1)
+    add('ndarg', 'ndarg', 'plain', 16)   # arguments with 1..4 axes (vmc/c13_ndarg.py): derivative / linearize / replace of plain and factored polynomial bodies
     add('diff', 'alg01', 'plain', 2)
     add('diff', 'alg01', 'nest', 2)
     add('factor', 'alg01', 'plain', 4)
@@ -290,6 +295,18 @@ def run_shard(spec, tier, seed):
     res = core.ShardResult()
     fam = spec['family']
     scheme = spec['scheme']
+    if fam == 'ndarg':
+        for shape, body, manip, factored in _part(list(ND.cases(tier)), spec['part'], spec['nparts']):
+            status, finding = ND.run_case(shape, body, manip, factored)
+            res.count('evaluations')
+            res.count('cases')
+            res.count('ndarg_cases')
+            res.distinct('distinct_outcomes', 'ndarg:' + status)
+            res.distinct('distinct_nontrivial', json.dumps(['ndarg', list(shape), body, manip, factored]))
+            if finding:
+                res.violation(finding[0], finding[1], {'kind': 'ndarg', 'shape': list(shape), 'body': body, 'manip': manip, 'factored': factored})
+        res.sample({'ndarg-shapes': len(ND.shapes(tier)), 'bodies': list(ND.BODIES), 'manipulations': list(ND.MANIPS)})
+        return res
     fs = _part(bodies(spec['space'], tier), spec['part'], spec['nparts'])
     reduced = spec.get('reduced', False)
     for f in fs:
@@ -596,6 +613,9 @@ def _run_intarg(res, f, F, scheme):
 
 def replay(w):
     J.quiet()
+    if w['kind'] == 'ndarg':
+        status, finding = ND.run_case(w['shape'], w['body'], w['manip'], w['factored'])
+        return None if finding is None else '{} [{}]'.format(finding[1], finding[0])
     if w['kind'] == 'evalvalue':
         finding, status = J.judge_evalvalue(w['term'], w['name'], w['value'], w['vdtype'], w['scheme'], w.get('val', 0))
         return None if finding is None else '{} [{}]'.format(finding[1], finding[0])
